@@ -411,7 +411,7 @@ int fiber_sleep(uint32_t seconds, uint32_t useconds) {
 }
 
 void fiber_fd_closed(int fd) {
-  if (event_fd < 0) {
+  if (event_fd < 0 || fd < 0 || fd >= max_fd) {
     return;
   }
 
